@@ -233,6 +233,7 @@ def loop_block(
     signal: bool | None = None,
     default_open: bool | None = None,
     late: bool | None = None,
+    gate_late: bool | None = None,
 ) -> dict:
     """Ring loop: b0..b{L-1} pass state s0..s{L-1}; the last body node increments and
     produces s0 again; gate g continues while s0 < N (targets b0 / END or an exit node).
@@ -282,10 +283,15 @@ def loop_block(
         g["decide"] = {"op": "lt", "param": s[0], "value": N, "then": True, "else": False}
     if signal:
         g["wait_for"] = [f"{prefix}done"]
+    gate_late = (not signal and rng.random() < 0.2) if gate_late is None else (gate_late and not signal)
+    if gate_late:
+        # the gate also reads a limit computed by a set-up node: it is NOT runnable in the first step, the body is
+        nodes.append({"kind": "fn", "name": f"{prefix}plan", "params": [{"name": f"{prefix}budget"}], "outs": [f"{prefix}lim"], "blk_setup": True})
+        g["params"] = g["params"] + [{"name": f"{prefix}lim"}]
     nodes.append(g)
     if exit_node:
         nodes.append({"kind": "fn", "name": f"{prefix}fin", "params": [{"name": s[0]}], "outs": [f"{prefix}out"]})
-    return {"nodes": nodes, "seed": s[0], "L": L, "N": N, "gate": gate, "exit": exit_node, "signal": signal, "open": default_open, "state": s, "prefix": prefix, "late": late}
+    return {"nodes": nodes, "seed": s[0], "L": L, "N": N, "gate": gate, "exit": exit_node, "signal": signal, "open": default_open, "state": s, "prefix": prefix, "late": late, "gate_late": gate_late}
 
 
 # --------------------------------------------------------- general programs
@@ -393,9 +399,9 @@ def gen_program(
             on, inn, wn = f"{prefix}co{i}", f"{prefix}ci{i}", f"{prefix}cw{i}"
             t_outer = [inn] + (["@END"] if rng.random() < 0.5 else [])
             t_inner = [wn] + (["@END"] if rng.random() < 0.7 else [])
-            nodes.append({"kind": "route", "name": on, "params": [{"name": pa}], "targets": t_outer, "default_open": rng.random() < 0.7, "decide": {"op": "mod", "choices": list(t_outer)}, "_slot": i, "blk": f"{prefix}c{i}"})
-            nodes.append({"kind": "route", "name": inn, "params": [{"name": pb}], "targets": t_inner, "default_open": rng.random() < 0.7, "decide": {"op": "mod", "choices": list(t_inner) + [None]}, "_slot": i, "blk": f"{prefix}c{i}"})
-            nodes.append({"kind": "fn", "name": wn, "params": [{"name": pc}], "outs": [f"{prefix}cwo{i}"], "_slot": i, "blk": f"{prefix}c{i}"})
+            nodes.append({"kind": "route", "name": on, "params": [{"name": pa}], "targets": t_outer, "default_open": rng.random() < 0.7, "decide": {"op": "mod", "choices": list(t_outer)}, "_slot": i, "blk": f"{prefix}c{i}", "chain": True})
+            nodes.append({"kind": "route", "name": inn, "params": [{"name": pb}], "targets": t_inner, "default_open": rng.random() < 0.7, "decide": {"op": "mod", "choices": list(t_inner) + [None]}, "_slot": i, "blk": f"{prefix}c{i}", "chain": True})
+            nodes.append({"kind": "fn", "name": wn, "params": [{"name": pc}], "outs": [f"{prefix}cwo{i}"], "_slot": i, "blk": f"{prefix}c{i}", "chain": True})
             avail.append(f"{prefix}cwo{i}")
         elif kind == "loop":
             blk = loop_block(rng, f"{prefix}L{i}", L=1 if prefix else None)
@@ -460,7 +466,7 @@ def gen_program(
                     if rng.random() < 0.12 and o not in used_by_inner:
                         defaults[o] = mix("def", o) % 1000
     for nd in nodes:
-        if nd["kind"] in ("fn", "route", "ifelse") and not nd.get("blk"):
+        if nd["kind"] in ("fn", "route", "ifelse") and (not nd.get("blk") or nd.get("chain")):
             for p in nd["params"]:
                 if p["name"] in defaults:
                     p["default"] = defaults[p["name"]]
